@@ -1830,6 +1830,17 @@ Proof.
   destruct (a_hold _ _ I k (or_intror P)) as [c D]. rewrite D. lia.
 Qed.
 
+(* no step of any process deletes (or alters) the token file of a job that is and stays running *)
+Theorem running_file_stable : forall V C s l s' r j,
+  v_fire V = true -> reachable V C s -> step V C s l = Some (s', r) ->
+  j_ph (s_jobs s j) = Running -> j_ph (s_jobs s' j) = Running ->
+  s_disk s j = Written (c_cnt C j) /\ s_disk s' j = Written (c_cnt C j).
+Proof.
+  intros V C s l s' r j VFI R H P P'. split.
+  - apply (running_has_file V C s j VFI R). auto.
+  - apply (running_has_file V C s' j VFI); [eapply R_step; eauto|auto].
+Qed.
+
 (* a watcher thread only deletes the file of a job that is not between acquire and exit *)
 (* TokenFile.watch deletes only when the job lock is free and there is no pid file or the
    process it names is gone; in a reachable state this means the job is not between acquire
